@@ -211,6 +211,12 @@ func c17FrontEnds(c *drv.Ctx, texts []string) (mismatches []map[string]any, summ
 				summary["accepted"] += int(m["accepted"].(float64))
 				continue
 			}
+			if sl, ok := m["slow"]; ok {
+				idx := int(sl.(float64)) + offsets[k]
+				summary["slow"]++
+				c.Notes = append(c.Notes, fmt.Sprintf("a grammar text of %d bytes took more than 90 s through the five front ends and was skipped: %q", len(texts[idx]), clip(texts[idx], 300)))
+				continue
+			}
 			m["index"] = m["index"].(float64) + float64(offsets[k])
 			mismatches = append(mismatches, m)
 		}
@@ -763,4 +769,17 @@ func init() {
 		},
 		c17Run)
 	_ = gram.KSeq
+}
+
+func init() {
+	// ./check --tool c17texts <substring>: print the generated grammar texts containing it
+	drv.RegisterTool("c17texts", func(c *drv.Ctx, args []string) int {
+		c.Tier = "quick"
+		for i, t := range c17Texts(c, 600) {
+			if len(args) == 0 || strings.Contains(t, args[0]) {
+				fmt.Printf("---- text %d (%d bytes)\n%s\n", i, len(t), t)
+			}
+		}
+		return 0
+	})
 }
